@@ -1120,5 +1120,592 @@ example : GenericAll2 (fun i => if i = 0 then [2, 0] else [1, 1])
   have h := cos_sq_add_sin_sq (1 : ℝ)
   nlinarith [sq_nonneg (cos 1), sq_nonneg (sin 1)]
 
+/-! ## 13. 4D vectors: generic = spatial part generic, forward time-like -/
+
+inductive E4 : Type
+  | var (i : Nat)
+  | add (a b : E4)
+  | scale (k : ℝ) (a : E4)
+  | rotateZ (ang : ℝ) (a : E4)
+  | rotateX (ang : ℝ) (a : E4)
+  | rotateY (ang : ℝ) (a : E4)
+  | boostX (β : ℝ) (a : E4)
+  | boostY (β : ℝ) (a : E4)
+  | boostZ (β : ℝ) (a : E4)
+  | boost_p4 (a b : E4)       -- `a.boost_p4(b)`
+  | sub (a b : E4)
+  | unit (a : E4)
+  | conv (az : Az) (lon : Lon) (tmp : Tmp) (a : E4)   -- `to_<system>()` into the named 4D system
+
+/-- the public name of the conversion into the 4D system `(az, lon, tmp)` -/
+def convName4 : Az → Lon → Tmp → String
+  | .xy, .z, .t => "to_xyzt" | .xy, .z, .tau => "to_xyztau"
+  | .xy, .theta, .t => "to_xythetat" | .xy, .theta, .tau => "to_xythetatau"
+  | .xy, .eta, .t => "to_xyetat" | .xy, .eta, .tau => "to_xyetatau"
+  | .rhophi, .z, .t => "to_rhophizt" | .rhophi, .z, .tau => "to_rhophiztau"
+  | .rhophi, .theta, .t => "to_rhophithetat" | .rhophi, .theta, .tau => "to_rhophithetatau"
+  | .rhophi, .eta, .t => "to_rhophietat" | .rhophi, .eta, .tau => "to_rhophietatau"
+
+noncomputable def evalM4 (K : Consts ℝ) (A : Arith ℝ) (ρ : Nat → Vec ℝ) : E4 → Except Err (Vec ℝ)
+  | .var i => .ok (ρ i)
+  | .add a b => bin (evalM4 K A ρ a) (evalM4 K A ρ b) fun va vb => call evR K A "add" va [.v vb]
+  | .scale k a => un (evalM4 K A ρ a) fun va => call evR K A "scale" va [.sc k]
+  | .rotateZ ang a => un (evalM4 K A ρ a) fun va => call evR K A "rotateZ" va [.sc ang]
+  | .rotateX ang a => un (evalM4 K A ρ a) fun va => call evR K A "rotateX" va [.sc ang]
+  | .rotateY ang a => un (evalM4 K A ρ a) fun va => call evR K A "rotateY" va [.sc ang]
+  | .boostX β a => un (evalM4 K A ρ a) fun va => call evR K A "boostX" va [.kw "beta" β]
+  | .boostY β a => un (evalM4 K A ρ a) fun va => call evR K A "boostY" va [.kw "beta" β]
+  | .boostZ β a => un (evalM4 K A ρ a) fun va => call evR K A "boostZ" va [.kw "beta" β]
+  | .boost_p4 a b => bin (evalM4 K A ρ a) (evalM4 K A ρ b) fun va vb => call evR K A "boost_p4" va [.v vb]
+  | .sub a b => bin (evalM4 K A ρ a) (evalM4 K A ρ b) fun va vb => call evR K A "subtract" va [.v vb]
+  | .unit a => un (evalM4 K A ρ a) fun va => call evR K A "unit" va []
+  | .conv az lon tmp a => un (evalM4 K A ρ a) fun va => call evR K A (convName4 az lon tmp) va []
+
+/-- `boost_p4` on component lists: the Cartesian kernel `bp4` of Props/C09 -/
+noncomputable def bp4L : List ℝ → List ℝ → List ℝ
+  | [x, y, z, t], [px, py, pz, E] => l4 (bp4 (x, y, z, t) (px, py, pz, E))
+  | p, _ => p
+
+/-- the specification: rotations act on the spatial part; the boosts are the Cartesian kernels `bXβ`, `bYβ`, `bZβ`, `bp4`
+(the library's formulas on `(x, y, z, t)` components, Props/C09 proves them to be Lorentz transformations) -/
+noncomputable def evalS4 (ρS : Nat → List ℝ) : E4 → List ℝ
+  | .var i => ρS i
+  | .add a b => List.zipWith (· + ·) (evalS4 ρS a) (evalS4 ρS b)
+  | .scale k a => (evalS4 ρS a).map (k * ·)
+  | .rotateZ ang a => onSpatial (rotZ ang) (evalS4 ρS a)
+  | .rotateX ang a => onSpatial (rotX ang) (evalS4 ρS a)
+  | .rotateY ang a => onSpatial (rotY ang) (evalS4 ρS a)
+  | .boostX β a => on4 (bXβ β) (evalS4 ρS a)
+  | .boostY β a => on4 (bYβ β) (evalS4 ρS a)
+  | .boostZ β a => on4 (bZβ β) (evalS4 ρS a)
+  | .boost_p4 a b => bp4L (evalS4 ρS a) (evalS4 ρS b)
+  | .sub a b => List.zipWith (· - ·) (evalS4 ρS a) (evalS4 ρS b)
+  | .unit a => (evalS4 ρS a).map (fun x => 1 / normL (evalS4 ρS a) * x)
+  | .conv _ _ _ a => evalS4 ρS a
+
+/-- spatial part generic (off the z axis, off the plane `z = 0`), forward time-like: `√(x²+y²+z²) < t` -/
+def Generic4 (p : List ℝ) : Prop :=
+  ∃ x y z t, p = [x, y, z, t] ∧ 0 < x ^ 2 + y ^ 2 ∧ z ≠ 0 ∧ x ^ 2 + y ^ 2 + z ^ 2 < t ^ 2 ∧ 0 < t
+
+/-- every subexpression's specified value is generic; boost parameters are subluminal -/
+def GenericAll4 (ρS : Nat → List ℝ) : E4 → Prop
+  | .var i => Generic4 (ρS i)
+  | .add a b => (GenericAll4 ρS a ∧ GenericAll4 ρS b) ∧ Generic4 (evalS4 ρS (.add a b))
+  | .scale k a => GenericAll4 ρS a ∧ Generic4 (evalS4 ρS (.scale k a))
+  | .rotateZ ang a => GenericAll4 ρS a ∧ Generic4 (evalS4 ρS (.rotateZ ang a))
+  | .rotateX ang a => GenericAll4 ρS a ∧ Generic4 (evalS4 ρS (.rotateX ang a))
+  | .rotateY ang a => GenericAll4 ρS a ∧ Generic4 (evalS4 ρS (.rotateY ang a))
+  | .boostX β a => (GenericAll4 ρS a ∧ |β| < 1) ∧ Generic4 (evalS4 ρS (.boostX β a))
+  | .boostY β a => (GenericAll4 ρS a ∧ |β| < 1) ∧ Generic4 (evalS4 ρS (.boostY β a))
+  | .boostZ β a => (GenericAll4 ρS a ∧ |β| < 1) ∧ Generic4 (evalS4 ρS (.boostZ β a))
+  | .boost_p4 a b => (GenericAll4 ρS a ∧ GenericAll4 ρS b) ∧ Generic4 (evalS4 ρS (.boost_p4 a b))
+  | .sub a b => (GenericAll4 ρS a ∧ GenericAll4 ρS b) ∧ Generic4 (evalS4 ρS (.sub a b))
+  | .unit a => GenericAll4 ρS a ∧ Generic4 (evalS4 ρS (.unit a))
+  | .conv az lon tmp a => GenericAll4 ρS a ∧ Generic4 (evalS4 ρS (.conv az lon tmp a))
+
+theorem genericAll4_self {ρS : Nat → List ℝ} {e : E4} (h : GenericAll4 ρS e) : Generic4 (evalS4 ρS e) := by
+  cases e <;> first | exact h | exact h.2
+
+structure Good4 (v : Vec ℝ) : Prop where
+  wf : C01M.WFV v
+  dim : v.ty.dim = 4
+  rng : StoredInRange v
+  sin : SinOKAll v
+
+theorem good4_cases {v : Vec ℝ} (h : Good4 v) :
+    ∃ be mom az l tm a b c d, v = C11M.V4 be mom az l tm a b c d ∧ AzOK az a b ∧ LonOK l c ∧ InTmp tm d ∧ SinOK l c := by
+  obtain ⟨hv, hd, hr, hs⟩ := h
+  rcases wfv_cases hv with ⟨be, mom, az, a, b, rfl⟩ | ⟨be, mom, az, l, a, b, c, rfl⟩ |
+    ⟨be, mom, az, l, t, a, b, c, d, rfl⟩
+  · simp [VT.dim] at hd
+  · simp [VT.dim] at hd
+  · exact ⟨be, mom, az, l, t, a, b, c, d, rfl, hr.1, hr.2.1, hr.2.2, hs⟩
+
+theorem good4_mk (be : Backend) (mom : Bool) (az : Az) (l : Lon) (tm : Tmp) (a b c d : ℝ) (hA : AzOK az a b)
+    (hL : LonOK l c) (hT : InTmp tm d) (hS : SinOK l c) : Good4 (C11M.V4 be mom az l tm a b c d) :=
+  ⟨⟨by simp, rfl⟩, rfl, ⟨hA, hL, hT⟩, hS⟩
+
+theorem denote_V4_eq {be mom az l tm} {a b c d : ℝ} {p : List ℝ}
+    (hd : denote (C11M.V4 be mom az l tm a b c d) = some p) :
+    p = [xOf az a b, yOf az a b, zOf az l a b c, tOf az l tm a b c d] := by
+  simp only [denote, Option.some.injEq] at hd
+  exact hd.symm
+
+theorem generic4_iff (x y z t : ℝ) :
+    Generic4 [x, y, z, t] ↔ 0 < x ^ 2 + y ^ 2 ∧ z ≠ 0 ∧ x ^ 2 + y ^ 2 + z ^ 2 < t ^ 2 ∧ 0 < t := by
+  constructor
+  · rintro ⟨x', y', z', t', e, h⟩
+    simp only [List.cons.injEq, and_true] at e
+    obtain ⟨rfl, rfl, rfl, rfl⟩ := e
+    exact h
+  · rintro h
+    exact ⟨x, y, z, t, rfl, h⟩
+
+theorem canonTmp_of_inTmp {tm : Tmp} {d : ℝ} (h : InTmp tm d) : CanonTmp tm d := by
+  cases tm
+  · trivial
+  · exact h
+
+/-- **bridge lemma, 4D** -/
+theorem generic_storage_ok4 {v : Vec ℝ} {p : List ℝ} (hv : Good4 v) (hd : denote v = some p) (hg : Generic4 p) :
+    TanOKV v ∧ SinOKV v ∧ CanonTmpV v ∧ ThetaRangeV v ∧ BoostOK v ∧
+      Stored4 (fun _ l t _ _ c d => TanOK l c ∧ CanonTmp t d) v := by
+  obtain ⟨be, mom, az, l, tm, a, b, c, d, rfl, hA, hL, hTm, hS⟩ := good4_cases hv
+  have e := denote_V4_eq hd
+  subst e
+  obtain ⟨h1, h2, -, -⟩ := (generic4_iff _ _ _ _).1 hg
+  obtain ⟨hr, hc2, hT, hCL, hθ, hm⟩ := core3 hA hL hS h1 h2
+  have hC := canonTmp_of_inTmp hTm
+  exact ⟨hT, fun _ => hS, hC, hθ, ⟨hT, hS, hC⟩, ⟨hT, hC⟩⟩
+
+theorem outCanon4_parts {a : Az} {l : Lon} {t : Tmp} {v : ℝ × ℝ × ℝ × ℝ}
+    (h : OutCanon4 (.vec [.az a, .lon l, .tmp t]) v) : AzOK a v.1 v.2.1 ∧ LonOK l v.2.2.1 ∧ InTmp t v.2.2.2 := by
+  simp only [OutCanon4, OutCanonR, OutCanonL, and_true] at h
+  exact h
+
+theorem good4_result {be mom az l tm} {a b c d : ℝ} {p : List ℝ} (hA : AzOK az a b) (hL : LonOK l c) (hT : InTmp tm d)
+    (hd : denote (C11M.V4 be mom az l tm a b c d) = some p) (hg : Generic4 p) :
+    Good4 (C11M.V4 be mom az l tm a b c d) := by
+  have e := denote_V4_eq hd
+  subst e
+  exact good4_mk _ _ _ _ _ _ _ _ _ hA hL hT (sinOK_of_z_ne ((generic4_iff _ _ _ _).1 hg).2.1)
+
+theorem add4_case (K : Consts ℝ) (A : Arith ℝ) {va vb : Vec ℝ} {pa pb : List ℝ} (ha : Good4 va) (hb : Good4 vb)
+    (da : denote va = some pa) (db : denote vb = some pb) (ga : Generic4 pa) (gb : Generic4 pb)
+    (gr : Generic4 (List.zipWith (· + ·) pa pb)) :
+    ∃ r, call evR K A "add" va [.v vb] = .ok (.vec r) ∧ Good4 r ∧ denote r = some (List.zipWith (· + ·) pa pb) := by
+  obtain ⟨hTa, hSa, hCa, -, -, -⟩ := generic_storage_ok4 ha da ga
+  obtain ⟨hTb, hSb, hCb, -, -, -⟩ := generic_storage_ok4 hb db gb
+  obtain ⟨be1, mom1, az1, l1, t1, a0, a1, a2, a3, rfl, hA1, hL1, hT1, hS1⟩ := good4_cases ha
+  obtain ⟨be2, mom2, az2, l2, t2, b0, b1, b2, b3, rfl, hA2, hL2, hT2, hS2⟩ := good4_cases hb
+  have ea := denote_V4_eq da
+  have eb := denote_V4_eq db
+  subst ea; subst eb
+  have hrep' : Representable3 (spatial_add.ret az1 l1 az2 l2)
+      (Spec.add3 (Spec.cart3 az1 l1 a0 a1 a2) (Spec.cart3 az2 l2 b0 b1 b2)) :=
+    Or.inr ((generic4_iff _ _ _ _).1 gr).1
+  have hrep : RepAdd (C11M.V4 be1 mom1 az1 l1 t1 a0 a1 a2 a3) (C11M.V4 be2 mom2 az2 l2 t2 b0 b1 b2 b3) := fun _ => hrep'
+  obtain ⟨r, p, q, hcall, -, -, -, -, -, hp, hq, hden⟩ :=
+    c11m_add K A (C11M.V4 be1 mom1 az1 l1 t1 a0 a1 a2 a3) (C11M.V4 be2 mom2 az2 l2 t2 b0 b1 b2 b3) ha.wf hb.wf rfl
+      hTa hTb hSa hSb hCa hCb hrep
+  rw [da] at hp; rw [db] at hq
+  cases hp; cases hq
+  refine ⟨r, hcall, ?_, hden⟩
+  have he := add_eval4 K A be1 mom1 az1 l1 t1 be2 mom2 az2 l2 t2 a0 a1 a2 a3 b0 b1 b2 b3
+  rw [hcall] at he
+  have := vec_inj he
+  subst this
+  have hc := c13c_lorentz_add az1 l1 t1 az2 l2 t2 a0 a1 a2 a3 b0 b1 b2 b3 hTa hTb hS1 hS2 hT1 hT2 hrep'
+  rw [lorentz_add_ret_eq] at hc
+  obtain ⟨h1, h2, h3⟩ := outCanon4_parts hc
+  cases t1 <;> cases t2 <;> exact good4_result h1 h2 h3 hden gr
+
+theorem scale4_case (K : Consts ℝ) (A : Arith ℝ) (k : ℝ) {va : Vec ℝ} {pa : List ℝ} (ha : Good4 va)
+    (da : denote va = some pa) (ga : Generic4 pa) (gr : Generic4 (pa.map (k * ·))) :
+    ∃ r, call evR K A "scale" va [.sc k] = .ok (.vec r) ∧ Good4 r ∧ denote r = some (pa.map (k * ·)) := by
+  obtain ⟨-, -, -, hθ, -, -⟩ := generic_storage_ok4 ha da ga
+  obtain ⟨be, mom, az, l, tm, a, b, c, d, rfl, hA, hL, hTm, hS⟩ := good4_cases ha
+  have ea := denote_V4_eq da
+  subst ea
+  have hk : 0 ≤ k := by
+    have h1 := ((generic4_iff _ _ _ _).1 ga).2.2.2
+    have h2 : 0 < k * tOf az l tm a b c d := ((generic4_iff _ _ _ _).1 gr).2.2.2
+    by_contra hneg
+    have hk' : k < 0 := not_le.mp hneg
+    nlinarith
+  obtain ⟨r, p, hcall, -, -, hp, hden⟩ := c11m_scale K A (C11M.V4 be mom az l tm a b c d) ha.wf k hθ (fun _ => hk)
+  rw [da] at hp
+  cases hp
+  refine ⟨r, hcall, ?_, hden⟩
+  have he := scale_eval4 K A be mom az l tm k a b c d
+  rw [hcall] at he
+  have := vec_inj he
+  subst this
+  have hc := c13c_lorentz_scale az l tm k a b c d hA hL hTm hk
+  rw [lorentz_scale_ret_eq] at hc
+  obtain ⟨h1, h2, h3⟩ := outCanon4_parts hc
+  exact good4_result h1 h2 h3 hden gr
+
+theorem rotateZ4_case (K : Consts ℝ) (A : Arith ℝ) (ang : ℝ) {va : Vec ℝ} {pa : List ℝ} (ha : Good4 va)
+    (da : denote va = some pa) (ga : Generic4 pa) (gr : Generic4 (onSpatial (rotZ ang) pa)) :
+    ∃ r, call evR K A "rotateZ" va [.sc ang] = .ok (.vec r) ∧ Good4 r ∧ denote r = some (onSpatial (rotZ ang) pa) := by
+  obtain ⟨be, mom, az, l, tm, a, b, c, d, rfl, hA, hL, hTm, hS⟩ := good4_cases ha
+  obtain ⟨r, hcall, -, -, hden⟩ := c01m_rotateZ_spatial K A _ ha.wf (by simp [VT.dim]) ang
+  rw [da] at hden
+  refine ⟨r, hcall, ?_, hden⟩
+  have he := rotateZ_eval4 K A be mom az l tm ang a b c d
+  rw [hcall] at he
+  have := vec_inj he
+  subst this
+  have hc := c13c_planar_rotateZ az ang a b hA
+  rw [planar_rotateZ_ret_eq] at hc
+  exact good4_result (outCanon2_parts hc) hL hTm hden gr
+
+theorem rotateX4_case (K : Consts ℝ) (A : Arith ℝ) (ang : ℝ) {va : Vec ℝ} {pa : List ℝ} (ha : Good4 va)
+    (da : denote va = some pa) (ga : Generic4 pa) (gr : Generic4 (onSpatial (rotX ang) pa)) :
+    ∃ r, call evR K A "rotateX" va [.sc ang] = .ok (.vec r) ∧ Good4 r ∧ denote r = some (onSpatial (rotX ang) pa) := by
+  obtain ⟨hT, -, -, -, -, -⟩ := generic_storage_ok4 ha da ga
+  obtain ⟨w, hcall, -, -, hden⟩ := c01m_rotateX K A va ha.wf (by rw [ha.dim]; decide) hT ang
+  rw [da] at hden
+  refine ⟨w, hcall, ?_, hden⟩
+  have he := rotateX_eval K A va ha.wf (by rw [ha.dim]; decide) ang
+  rw [hcall] at he
+  have := vec_inj he
+  subst this
+  obtain ⟨be, mom, az, l, tm, a, b, c, d, rfl, hA, hL, hTm, hS⟩ := good4_cases ha
+  exact good4_result (be := be) (mom := mom) (az := .xy) (l := .z) (tm := tm) trivial trivial hTm hden gr
+
+theorem rotateY4_case (K : Consts ℝ) (A : Arith ℝ) (ang : ℝ) {va : Vec ℝ} {pa : List ℝ} (ha : Good4 va)
+    (da : denote va = some pa) (ga : Generic4 pa) (gr : Generic4 (onSpatial (rotY ang) pa)) :
+    ∃ r, call evR K A "rotateY" va [.sc ang] = .ok (.vec r) ∧ Good4 r ∧ denote r = some (onSpatial (rotY ang) pa) := by
+  obtain ⟨hT, -, -, -, -, -⟩ := generic_storage_ok4 ha da ga
+  obtain ⟨w, hcall, -, -, hden⟩ := c01m_rotateY K A va ha.wf (by rw [ha.dim]; decide) hT ang
+  rw [da] at hden
+  refine ⟨w, hcall, ?_, hden⟩
+  have he := rotateY_eval K A va ha.wf (by rw [ha.dim]; decide) ang
+  rw [hcall] at he
+  have := vec_inj he
+  subst this
+  obtain ⟨be, mom, az, l, tm, a, b, c, d, rfl, hA, hL, hTm, hS⟩ := good4_cases ha
+  exact good4_result (be := be) (mom := mom) (az := .xy) (l := .z) (tm := tm) trivial trivial hTm hden gr
+
+theorem boostX4_case (K : Consts ℝ) (A : Arith ℝ) (β : ℝ) (hβ : |β| < 1) {va : Vec ℝ} {pa : List ℝ} (ha : Good4 va)
+    (da : denote va = some pa) (ga : Generic4 pa) (gr : Generic4 (on4 (bXβ β) pa)) :
+    ∃ r, call evR K A "boostX" va [.kw "beta" β] = .ok (.vec r) ∧ Good4 r ∧ denote r = some (on4 (bXβ β) pa) := by
+  obtain ⟨-, -, -, -, hB, -⟩ := generic_storage_ok4 ha da ga
+  obtain ⟨w, hcall, -, -, -, hden⟩ := c09m_boostX_beta K A va ha.wf ha.dim hB β (fun _ => hβ)
+  rw [da] at hden
+  refine ⟨w, hcall, ?_, hden⟩
+  obtain ⟨be, mom, az, l, tm, a, b, c, d, rfl, hA, hL, hTm, hS⟩ := good4_cases ha
+  have he := (boostX_beta_eval K A be mom az l tm a b c d β).1
+  rw [hcall, (c13c_lorentz_boostXY_ret az l tm).1] at he
+  have := vec_inj he
+  subst this
+  have hc := c13c_lorentz_boostX_beta az l tm β a b c d hTm
+  rw [(c13c_lorentz_boostXY_ret az l tm).1] at hc
+  obtain ⟨h1, h2, h3⟩ := outCanon4_parts hc
+  exact good4_result (be := be) (mom := mom) h1 h2 h3 hden gr
+
+theorem boostY4_case (K : Consts ℝ) (A : Arith ℝ) (β : ℝ) (hβ : |β| < 1) {va : Vec ℝ} {pa : List ℝ} (ha : Good4 va)
+    (da : denote va = some pa) (ga : Generic4 pa) (gr : Generic4 (on4 (bYβ β) pa)) :
+    ∃ r, call evR K A "boostY" va [.kw "beta" β] = .ok (.vec r) ∧ Good4 r ∧ denote r = some (on4 (bYβ β) pa) := by
+  obtain ⟨-, -, -, -, hB, -⟩ := generic_storage_ok4 ha da ga
+  obtain ⟨w, hcall, -, -, -, hden⟩ := c09m_boostY_beta K A va ha.wf ha.dim hB β (fun _ => hβ)
+  rw [da] at hden
+  refine ⟨w, hcall, ?_, hden⟩
+  obtain ⟨be, mom, az, l, tm, a, b, c, d, rfl, hA, hL, hTm, hS⟩ := good4_cases ha
+  have he := (boostY_beta_eval K A be mom az l tm a b c d β).1
+  rw [hcall, (c13c_lorentz_boostXY_ret az l tm).2.2.1] at he
+  have := vec_inj he
+  subst this
+  have hc := c13c_lorentz_boostY_beta az l tm β a b c d hTm
+  rw [(c13c_lorentz_boostXY_ret az l tm).2.2.1] at hc
+  obtain ⟨h1, h2, h3⟩ := outCanon4_parts hc
+  exact good4_result (be := be) (mom := mom) h1 h2 h3 hden gr
+
+theorem boostZ4_case (K : Consts ℝ) (A : Arith ℝ) (β : ℝ) (hβ : |β| < 1) {va : Vec ℝ} {pa : List ℝ} (ha : Good4 va)
+    (da : denote va = some pa) (ga : Generic4 pa) (gr : Generic4 (on4 (bZβ β) pa)) :
+    ∃ r, call evR K A "boostZ" va [.kw "beta" β] = .ok (.vec r) ∧ Good4 r ∧ denote r = some (on4 (bZβ β) pa) := by
+  obtain ⟨-, -, -, -, hB, -⟩ := generic_storage_ok4 ha da ga
+  obtain ⟨w, hcall, -, -, -, hden⟩ := c09m_boostZ_beta K A va ha.wf ha.dim hB β (fun _ => hβ)
+  rw [da] at hden
+  refine ⟨w, hcall, ?_, hden⟩
+  obtain ⟨be, mom, az, l, tm, a, b, c, d, rfl, hA, hL, hTm, hS⟩ := good4_cases ha
+  have he := (boostZ_beta_eval K A be mom az l tm a b c d β).1
+  rw [hcall, (c13c_lorentz_boostZ_ret az l tm).1] at he
+  have := vec_inj he
+  subst this
+  have hc := c13c_lorentz_boostZ_beta az l tm β a b c d hA hTm
+  rw [(c13c_lorentz_boostZ_ret az l tm).1] at hc
+  obtain ⟨h1, h2, h3⟩ := outCanon4_parts hc
+  exact good4_result (be := be) (mom := mom) h1 h2 h3 hden gr
+
+theorem boost_p4_case (K : Consts ℝ) (A : Arith ℝ) {va vb : Vec ℝ} {pa pb : List ℝ} (ha : Good4 va) (hb : Good4 vb)
+    (da : denote va = some pa) (db : denote vb = some pb) (ga : Generic4 pa) (gb : Generic4 pb)
+    (gr : Generic4 (bp4L pa pb)) :
+    ∃ r, call evR K A "boost_p4" va [.v vb] = .ok (.vec r) ∧ Good4 r ∧ denote r = some (bp4L pa pb) := by
+  obtain ⟨-, -, -, -, -, hSa⟩ := generic_storage_ok4 ha da ga
+  obtain ⟨-, -, -, -, hBb, -⟩ := generic_storage_ok4 hb db gb
+  obtain ⟨x, y, z, t, rfl, -, -, -, -⟩ := id ga
+  obtain ⟨px, py, pz, E, rfl, -, -, hE1, hE2⟩ := id gb
+  obtain ⟨w, hcall, -, -, hden⟩ := c09m_boost_p4 K A va vb ha.wf ha.dim hb.wf hb.dim hSa hBb x y z t px py pz E da db
+    (fun _ => ⟨hE1, hE2⟩)
+  refine ⟨w, hcall, ?_, hden⟩
+  obtain ⟨be1, mom1, az1, l1, t1, a0, a1, a2, a3, rfl, hA1, hL1, hT1, hS1⟩ := good4_cases ha
+  obtain ⟨be2, mom2, az2, l2, t2, b0, b1, b2, b3, rfl, hA2, hL2, hT2, hS2⟩ := good4_cases hb
+  have he := boost_p4_eval K A be1 mom1 az1 l1 t1 a0 a1 a2 a3 be2 mom2 az2 l2 t2 b0 b1 b2 b3
+  rw [hcall] at he
+  have := vec_inj he
+  subst this
+  have hc := c13c_lorentz_boost_p4 az1 l1 t1 az2 l2 t2 a0 a1 a2 a3 b0 b1 b2 b3 hT1
+  rw [c13c_lorentz_boost_p4_ret] at hc
+  obtain ⟨h1, h2, h3⟩ := outCanon4_parts hc
+  exact good4_result (be := C01M.hbe be1 be2) (mom := mom1 || mom2) h1 h2 h3 hden gr
+
+
+/-- the difference must again be generic — in particular forward time-like, which is exactly the condition
+(`SubCausal`) under which a τ,τ-stored difference is representable (`c13c_lorentz_subtract_tau_nonneg_iff`) -/
+theorem sub4_case (K : Consts ℝ) (A : Arith ℝ) {va vb : Vec ℝ} {pa pb : List ℝ} (ha : Good4 va) (hb : Good4 vb)
+    (da : denote va = some pa) (db : denote vb = some pb) (ga : Generic4 pa) (gb : Generic4 pb)
+    (gr : Generic4 (List.zipWith (· - ·) pa pb)) :
+    ∃ r, call evR K A "subtract" va [.v vb] = .ok (.vec r) ∧ Good4 r ∧
+      denote r = some (List.zipWith (· - ·) pa pb) := by
+  obtain ⟨hTa, hSa, hCa, -, -, -⟩ := generic_storage_ok4 ha da ga
+  obtain ⟨hTb, hSb, hCb, -, -, -⟩ := generic_storage_ok4 hb db gb
+  obtain ⟨be1, mom1, az1, l1, t1, a0, a1, a2, a3, rfl, hA1, hL1, hT1, hS1⟩ := good4_cases ha
+  obtain ⟨be2, mom2, az2, l2, t2, b0, b1, b2, b3, rfl, hA2, hL2, hT2, hS2⟩ := good4_cases hb
+  have ea := denote_V4_eq da
+  have eb := denote_V4_eq db
+  subst ea; subst eb
+  obtain ⟨g1, g2, g3, g4⟩ := (generic4_iff _ _ _ _).1 gr
+  have hrep' : Representable3 (spatial_subtract.ret az1 l1 az2 l2)
+      (Spec.sub3 (Spec.cart3 az1 l1 a0 a1 a2) (Spec.cart3 az2 l2 b0 b1 b2)) := Or.inr g1
+  have hrep : RepSub (C11M.V4 be1 mom1 az1 l1 t1 a0 a1 a2 a3) (C11M.V4 be2 mom2 az2 l2 t2 b0 b1 b2 b3) := fun _ => hrep'
+  have hcaus : SubCausal (C11M.V4 be1 mom1 az1 l1 t1 a0 a1 a2 a3) (C11M.V4 be2 mom2 az2 l2 t2 b0 b1 b2 b3) :=
+    fun _ _ => ⟨g4.le, g3.le⟩
+  obtain ⟨r, p, q, hcall, -, -, -, -, -, hp, hq, hden⟩ :=
+    c11m_subtract K A (C11M.V4 be1 mom1 az1 l1 t1 a0 a1 a2 a3) (C11M.V4 be2 mom2 az2 l2 t2 b0 b1 b2 b3) ha.wf hb.wf rfl
+      hTa hTb hSa hSb hCa hCb hrep hcaus
+  rw [da] at hp; rw [db] at hq
+  cases hp; cases hq
+  refine ⟨r, hcall, ?_, hden⟩
+  have he := subtract_eval4 K A be1 mom1 az1 l1 t1 be2 mom2 az2 l2 t2 a0 a1 a2 a3 b0 b1 b2 b3
+  rw [hcall] at he
+  have := vec_inj he
+  subst this
+  have hc := c13c_lorentz_subtract az1 l1 t1 az2 l2 t2 a0 a1 a2 a3 b0 b1 b2 b3 hTa hTb hS1 hS2 hT1 hT2 hrep'
+    (fun e1 e2 => by subst e1; subst e2; exact g3.le)
+  rw [lorentz_subtract_ret_eq] at hc
+  obtain ⟨h1, h2, h3⟩ := outCanon4_parts hc
+  cases t1 <;> cases t2 <;> exact good4_result h1 h2 h3 hden gr
+
+theorem unit4_case (K : Consts ℝ) (A : Arith ℝ) {va : Vec ℝ} {pa : List ℝ} (ha : Good4 va)
+    (da : denote va = some pa) (ga : Generic4 pa) (gr : Generic4 (pa.map (fun x => 1 / normL pa * x))) :
+    ∃ r, call evR K A "unit" va [] = .ok (.vec r) ∧ Good4 r ∧
+      denote r = some (pa.map (fun x => 1 / normL pa * x)) := by
+  obtain ⟨be, mom, az, l, tm, a, b, c, d, rfl, hA, hL, hTm, hS⟩ := good4_cases ha
+  have ea := denote_V4_eq da
+  subst ea
+  obtain ⟨g1, g2, g3, g4⟩ := (generic4_iff _ _ _ _).1 ga
+  obtain ⟨hr, hc2, hT, hCL, hθ, hm⟩ := core3 hA hL hS g1 g2
+  have hC := canonTmp_of_inTmp hTm
+  have hlt : mag2Of az l a b c < tOf az l tm a b c d ^ 2 := g3
+  have hne : tOf az l tm a b c d ^ 2 - mag2Of az l a b c ≠ 0 := ne_of_gt (sub_pos.mpr hlt)
+  have hU : UnitOK (C11M.V4 be mom az l tm a b c d) := ⟨hS, hC, hne⟩
+  obtain ⟨r, p, u, hcall, -, -, hp, -, hden, hu, -⟩ := c11m_unit K A (C11M.V4 be mom az l tm a b c d) ha.wf hU
+  rw [da] at hp
+  cases hp
+  subst hu
+  refine ⟨r, hcall, ?_, hden⟩
+  have he := unit_eval4 K A be mom az l tm a b c d
+  rw [hcall] at he
+  have := vec_inj he
+  subst this
+  have hn : lorentz_tau2.eval az l tm a b c d ≠ 0 := by
+    rw [refine_lorentz_tau2 az l tm a b c d hCL hC]; exact hne
+  have hc := c13c_lorentz_unit az l tm a b c d hA hL hTm hn
+  rw [lorentz_unit_ret_eq] at hc
+  obtain ⟨h1, h2, h3⟩ := outCanon4_parts hc
+  exact good4_result h1 h2 h3 hden gr
+
+theorem convName4_target (az : Az) (l : Lon) (tm : Tmp) :
+    C04.toTarget (convName4 az l tm) = some (az, some l, some tm) := by
+  cases az <;> cases l <;> cases tm <;> decide
+
+/-- the converted temporal coordinate is in range: `τ = sign(s)√|s| ≥ 0` for a causal vector -/
+theorem convTmp_range {az0 : Az} {l0 : Lon} {t0 tm : Tmp} {a b c d : ℝ} (hCL : CanonLon az0 l0 a b c)
+    (hC : CanonTmp t0 d) (hs : mag2Of az0 l0 a b c ≤ tOf az0 l0 t0 a b c d ^ 2) :
+    InTmp tm (C04M.convTmp az0 l0 t0 tm a b c d) := by
+  cases tm
+  · trivial
+  · show 0 ≤ lorentz_tau.eval az0 l0 t0 a b c d
+    rw [refine_lorentz_tau az0 l0 t0 a b c d hCL hC]
+    exact C04M.sign_mul_sqrt_abs_nonneg (by linarith)
+
+theorem conv4_case (K : Consts ℝ) (A : Arith ℝ) (az : Az) (l : Lon) (tm : Tmp) {va : Vec ℝ} {pa : List ℝ}
+    (ha : Good4 va) (da : denote va = some pa) (ga : Generic4 pa) :
+    ∃ r, call evR K A (convName4 az l tm) va [] = .ok (.vec r) ∧ Good4 r ∧ denote r = some pa := by
+  obtain ⟨be, mom, az0, l0, t0, a, b, c, d, rfl, hA, hL, hTm, hS⟩ := good4_cases ha
+  have ea := denote_V4_eq da
+  subst ea
+  obtain ⟨g1, g2, g3, g4⟩ := (generic4_iff _ _ _ _).1 ga
+  obtain ⟨hr, hc2, hT, hCL, hθ, hm⟩ := core3 hA hL hS g1 g2
+  have hC := canonTmp_of_inTmp hTm
+  have hlt : mag2Of az0 l0 a b c < tOf az0 l0 t0 a b c d ^ 2 := g3
+  have hF : C04M.FwdOK (C11M.V4 be mom az0 l0 t0 a b c d) (some l) (some tm) := by
+    show C04M.LonOK az0 l0 l a b c ∧ C04M.TmpOK az0 l0 t0 tm a b c d
+    refine ⟨?_, ?_⟩
+    · cases l
+      · exact hT
+      · exact hr
+      · exact ⟨hr, hCL⟩
+    · cases t0 <;> cases tm
+      · trivial
+      · exact ⟨hCL, le_of_lt g4, le_of_lt hlt⟩
+      · exact ⟨hCL, hTm⟩
+      · trivial
+  obtain ⟨r, hcall, -, -, hden⟩ :=
+    C04M.c04m_to_denote_name K A (convName4 az l tm) az (some l) (some tm) (convName4_target az l tm) _ ha.wf rfl rfl hF
+  rw [da] at hden
+  refine ⟨r, hcall, ?_, hden⟩
+  have he := call_of_target K A (convName4 az l tm) az (some l) (some tm) (convName4_target az l tm)
+    (C11M.V4 be mom az0 l0 t0 a b c d)
+  rw [hcall, C04M.toSystem_eval4] at he
+  have := vec_inj he
+  subst this
+  obtain ⟨h1, h2⟩ := conv_range (az := az) (l := l) hA hr hCL
+  exact good4_result h1 h2 (convTmp_range hCL hC hlt.le) hden ga
+
+/-- **main theorem, 4D** -/
+theorem c01e_eval4 (K : Consts ℝ) (A : Arith ℝ) (ρ : Nat → Vec ℝ) (ρS : Nat → List ℝ)
+    (hρ : ∀ i, Good4 (ρ i)) (hS : ∀ i, denote (ρ i) = some (ρS i)) (e : E4) (hg : GenericAll4 ρS e) :
+    ∃ v, evalM4 K A ρ e = .ok v ∧ Good4 v ∧ denote v = some (evalS4 ρS e) := by
+  induction e with
+  | var i => exact ⟨ρ i, rfl, hρ i, hS i⟩
+  | add a b iha ihb =>
+    obtain ⟨⟨ga, gb⟩, gr⟩ := hg
+    obtain ⟨va, ea, ha, da⟩ := iha ga
+    obtain ⟨vb, eb, hb, db⟩ := ihb gb
+    obtain ⟨r, hc, hr, hd⟩ := add4_case K A ha hb da db (genericAll4_self ga) (genericAll4_self gb) gr
+    exact ⟨r, by simp only [evalM4, ea, eb, bin, hc, vecOf], hr, hd⟩
+  | scale k a iha =>
+    obtain ⟨ga, gr⟩ := hg
+    obtain ⟨va, ea, ha, da⟩ := iha ga
+    obtain ⟨r, hc, hr, hd⟩ := scale4_case K A k ha da (genericAll4_self ga) gr
+    exact ⟨r, by simp only [evalM4, ea, un, hc, vecOf], hr, hd⟩
+  | rotateZ ang a iha =>
+    obtain ⟨ga, gr⟩ := hg
+    obtain ⟨va, ea, ha, da⟩ := iha ga
+    obtain ⟨r, hc, hr, hd⟩ := rotateZ4_case K A ang ha da (genericAll4_self ga) gr
+    exact ⟨r, by simp only [evalM4, ea, un, hc, vecOf], hr, hd⟩
+  | rotateX ang a iha =>
+    obtain ⟨ga, gr⟩ := hg
+    obtain ⟨va, ea, ha, da⟩ := iha ga
+    obtain ⟨r, hc, hr, hd⟩ := rotateX4_case K A ang ha da (genericAll4_self ga) gr
+    exact ⟨r, by simp only [evalM4, ea, un, hc, vecOf], hr, hd⟩
+  | rotateY ang a iha =>
+    obtain ⟨ga, gr⟩ := hg
+    obtain ⟨va, ea, ha, da⟩ := iha ga
+    obtain ⟨r, hc, hr, hd⟩ := rotateY4_case K A ang ha da (genericAll4_self ga) gr
+    exact ⟨r, by simp only [evalM4, ea, un, hc, vecOf], hr, hd⟩
+  | boostX β a iha =>
+    obtain ⟨⟨ga, hβ⟩, gr⟩ := hg
+    obtain ⟨va, ea, ha, da⟩ := iha ga
+    obtain ⟨r, hc, hr, hd⟩ := boostX4_case K A β hβ ha da (genericAll4_self ga) gr
+    exact ⟨r, by simp only [evalM4, ea, un, hc, vecOf], hr, hd⟩
+  | boostY β a iha =>
+    obtain ⟨⟨ga, hβ⟩, gr⟩ := hg
+    obtain ⟨va, ea, ha, da⟩ := iha ga
+    obtain ⟨r, hc, hr, hd⟩ := boostY4_case K A β hβ ha da (genericAll4_self ga) gr
+    exact ⟨r, by simp only [evalM4, ea, un, hc, vecOf], hr, hd⟩
+  | boostZ β a iha =>
+    obtain ⟨⟨ga, hβ⟩, gr⟩ := hg
+    obtain ⟨va, ea, ha, da⟩ := iha ga
+    obtain ⟨r, hc, hr, hd⟩ := boostZ4_case K A β hβ ha da (genericAll4_self ga) gr
+    exact ⟨r, by simp only [evalM4, ea, un, hc, vecOf], hr, hd⟩
+  | boost_p4 a b iha ihb =>
+    obtain ⟨⟨ga, gb⟩, gr⟩ := hg
+    obtain ⟨va, ea, ha, da⟩ := iha ga
+    obtain ⟨vb, eb, hb, db⟩ := ihb gb
+    obtain ⟨r, hc, hr, hd⟩ := boost_p4_case K A ha hb da db (genericAll4_self ga) (genericAll4_self gb) gr
+    exact ⟨r, by simp only [evalM4, ea, eb, bin, hc, vecOf], hr, hd⟩
+  | sub a b iha ihb =>
+    obtain ⟨⟨ga, gb⟩, gr⟩ := hg
+    obtain ⟨va, ea, ha, da⟩ := iha ga
+    obtain ⟨vb, eb, hb, db⟩ := ihb gb
+    obtain ⟨r, hc, hr, hd⟩ := sub4_case K A ha hb da db (genericAll4_self ga) (genericAll4_self gb) gr
+    exact ⟨r, by simp only [evalM4, ea, eb, bin, hc, vecOf], hr, hd⟩
+  | unit a iha =>
+    obtain ⟨ga, gr⟩ := hg
+    obtain ⟨va, ea, ha, da⟩ := iha ga
+    obtain ⟨r, hc, hr, hd⟩ := unit4_case K A ha da (genericAll4_self ga) gr
+    exact ⟨r, by simp only [evalM4, ea, un, hc, vecOf], hr, hd⟩
+  | conv az l tm a iha =>
+    obtain ⟨ga, gr⟩ := hg
+    obtain ⟨va, ea, ha, da⟩ := iha ga
+    obtain ⟨r, hc, hr, hd⟩ := conv4_case K A az l tm ha da (genericAll4_self ga)
+    exact ⟨r, by simp only [evalM4, ea, un, hc, vecOf], hr, hd⟩
+
+theorem good4_denote {v : Vec ℝ} (h : Good4 v) : ∃ p, denote v = some p := by
+  obtain ⟨be, mom, az, l, tm, a, b, c, d, rfl, -, -, -, -⟩ := good4_cases h
+  exact ⟨_, rfl⟩
+
+theorem denote_specEnv4 {ρ : Nat → Vec ℝ} (hρ : ∀ i, Good4 (ρ i)) (i : Nat) : denote (ρ i) = some (specEnv ρ i) := by
+  obtain ⟨p, hp⟩ := good4_denote (hρ i)
+  simp only [specEnv, hp, Option.getD_some]
+
+/-- **C01 for 4D computations** (any of the 12 storages per variable, any flavors/backends) -/
+theorem c01e_indep4 (K : Consts ℝ) (A : Arith ℝ) (ρ₁ ρ₂ : Nat → Vec ℝ)
+    (h₁ : ∀ i, Good4 (ρ₁ i)) (h₂ : ∀ i, Good4 (ρ₂ i)) (hd : ∀ i, denote (ρ₁ i) = denote (ρ₂ i)) (e : E4)
+    (hg : GenericAll4 (specEnv ρ₁) e) :
+    ∃ v₁ v₂, evalM4 K A ρ₁ e = .ok v₁ ∧ evalM4 K A ρ₂ e = .ok v₂ ∧ denote v₁ = denote v₂ ∧
+      denote v₁ = some (evalS4 (specEnv ρ₁) e) := by
+  obtain ⟨v₁, e₁, -, d₁⟩ := c01e_eval4 K A ρ₁ (specEnv ρ₁) h₁ (denote_specEnv4 h₁) e hg
+  obtain ⟨v₂, e₂, -, d₂⟩ :=
+    c01e_eval4 K A ρ₂ (specEnv ρ₁) h₂ (fun i => by rw [← hd i]; exact denote_specEnv4 h₁ i) e hg
+  exact ⟨v₁, v₂, e₁, e₂, by rw [d₁, d₂], d₁⟩
+
+/-! ### non-vacuity, 4D: `boostX(3/5, 2·rotateZ(π, v₀) + v₁ + v₂)` over (x,y,z,t), (ρ,φ,η,τ) and (x,y,θ,t) variables -/
+
+/-- `v₀ = (x, y, z, t) = (1, 1, 1, 3)`; `v₁ = (ρ, φ, η, τ) = (2, 0, arsinh ½, 2)`, the point `(2, 0, 1, 3)`;
+`v₂ = (x, y, θ, t) = (1, 0, π/4, 5)`, the point `(1, 0, 1, 5)` -/
+noncomputable def exEnv4 : Nat → Vec ℝ
+  | 0 => C11M.V4 .obj false .xy .z .t 1 1 1 3
+  | 1 => C11M.V4 .obj true .rhophi .eta .tau 2 0 (arsinh (1 / 2)) 2
+  | _ => C11M.V4 .np true .xy .theta .t 1 0 (π / 4) 5
+
+def exSpec4 : Nat → List ℝ
+  | 0 => [1, 1, 1, 3]
+  | 1 => [2, 0, 1, 3]
+  | _ => [1, 0, 1, 5]
+
+noncomputable def exE4 : E4 :=
+  .boostX (3 / 5) (.add (.add (.scale 2 (.rotateZ π (.var 0))) (.var 1)) (.var 2))
+
+theorem exEnv4_good : ∀ i, Good4 (exEnv4 i) := by
+  intro i
+  have hpi := pi_pos
+  match i with
+  | 0 => exact good4_mk _ _ _ _ _ _ _ _ _ trivial trivial trivial trivial
+  | 1 =>
+    exact good4_mk _ _ _ _ _ _ _ _ _ ⟨by norm_num, by linarith, by linarith⟩ trivial (show (0 : ℝ) ≤ 2 by norm_num) trivial
+  | (n + 2) =>
+    refine good4_mk _ _ _ _ _ _ _ _ _ trivial ⟨by positivity, by linarith⟩ trivial ?_
+    show sin (π / 4) ≠ 0
+    rw [sin_pi_div_four]; positivity
+
+theorem exEnv4_denote : ∀ i, denote (exEnv4 i) = some (exSpec4 i) := by
+  intro i
+  match i with
+  | 0 => rfl
+  | 1 =>
+    have h9 : sqrt ((2 : ℝ) ^ 2 + ((2 * 1) ^ 2 + (2 * 0) ^ 2 + (2 * (1 / 2)) ^ 2)) = 3 := by
+      rw [show (2 : ℝ) ^ 2 + ((2 * 1) ^ 2 + (2 * 0) ^ 2 + (2 * (1 / 2)) ^ 2) = 3 ^ 2 by norm_num]
+      exact sqrt_sq (by norm_num)
+    simp only [exEnv4, exSpec4, denote, xOf, yOf, zOf, tOf, mag2Of, rhoOf, cos_zero, sin_zero, sinh_arsinh, h9]
+    norm_num
+  | (n + 2) =>
+    have h1 : sqrt ((1 : ℝ) ^ 2 + 0 ^ 2) = 1 := by norm_num
+    have h2 : cos (π / 4) / sin (π / 4) = 1 := by
+      rw [cos_pi_div_four, sin_pi_div_four]; exact div_self (by positivity)
+    simp only [exEnv4, exSpec4, denote, xOf, yOf, zOf, tOf, rhoOf, h1, h2, mul_one]
+
+theorem gam35 : P.rpow (1 - (3 / 5 : ℝ) ^ 2) (-(0.5 : ℝ)) = 5 / 4 := by
+  have h : (1 - (3 / 5 : ℝ) ^ 2) = (4 / 5 : ℝ) ^ (2 : ℝ) := by rw [Real.rpow_two]; norm_num
+  show (1 - (3 / 5 : ℝ) ^ 2) ^ (-(0.5 : ℝ)) = 5 / 4
+  rw [h, ← Real.rpow_mul (by norm_num)]
+  norm_num [Real.rpow_neg_one]
+
+/-- **`GenericAll4` is satisfiable** (depth 6; the boost is a genuine one, `γ = 5/4`) -/
+theorem exE4_generic : GenericAll4 exSpec4 exE4 := by
+  simp only [exE4, GenericAll4, evalS4, exSpec4, List.map_cons, List.map_nil, List.zipWith_cons_cons,
+    List.zipWith_nil_right, onSpatial, rotZ, cos_pi, sin_pi, on4, l4, bXβ, lorentz_boostX_beta.eval,
+    lorentz_boostX_beta.xy_z_t, gam35, generic4_iff]
+  norm_num [abs_lt]
+
+example (K : Consts ℝ) (A : Arith ℝ) :
+    ∃ v, evalM4 K A exEnv4 exE4 = .ok v ∧ Good4 v ∧ denote v = some (evalS4 exSpec4 exE4) :=
+  c01e_eval4 K A exEnv4 exSpec4 exEnv4_good exEnv4_denote exE4 exE4_generic
+
 end C01E
 end VR
